@@ -18,6 +18,7 @@ import (
 	"unicode"
 	"unicode/utf8"
 
+	"golang.org/x/text/unicode/norm"
 	"golang.org/x/tools/go/ssa"
 )
 
@@ -424,7 +425,15 @@ func (m *machine) intrinsic(name string, fn *ssa.Function, args []value, pos tok
 
 	// ---- text normalisation (x/text tables are not interpretable)
 	case "(golang.org/x/text/unicode/norm.Form).String", "(golang.org/x/text/unicode/norm.Form).IsNormalString":
-		panic(abortPath{"unsupported:" + name + " on symbolic text"})
+		form, okF := args[0].(iv)
+		str, okS := args[1].(string)
+		if !okF || form.sym() || !okS {
+			panic(abortPath{"unsupported:" + name + " on symbolic text"})
+		}
+		if short == "String" {
+			return norm.Form(form.c).String(str), true
+		}
+		return bv{c: norm.Form(form.c).IsNormalString(str)}, true
 	case "time.Now":
 		panic(abortPath{"unsupported:time.Now"})
 	}
